@@ -7,11 +7,13 @@
 //!   ty   payload type code (request/response for request-response, key type for blackboard):
 //!        0 u64 | 1 i64 (same layout, other name) | 2 u32 (other size) | 3 u64 with payload
 //!        alignment 16 | 4 [u64] (slice, i.e. other variant; slice builders are separate impls)
+//!        | 5 Flatbuffer<u64> (publish-subscribe only: creation needs a schema file that does not exist)
 //!   v    one entry per QoS field of the pattern in the order of verify_service_configuration,
 //!        `-` = setter not called.  Option-valued event fields: 0 = disable_*, k>0 = Some(k-1)
 //!        (deadline: k ms).  Bool fields: 0 / 1.
 //!   at   attributes defined on create (AttributeSpecifier)     rq  required key=value pairs
 //!   rk   required keys (AttributeVerifier)                      ne  blackboard: add no entry
+//!   dk   blackboard: add the same key twice (the management segment's initializer fails)
 //! Field order:
 //!   ps: max_publishers max_subscribers subscriber_max_buffer_size history_size
 //!       subscriber_max_borrowed_samples enable_safe_overflow max_nodes
@@ -110,6 +112,7 @@ pub struct Req {
     pub require: Vec<(u8, u8)>,
     pub require_keys: Vec<u8>,
     pub no_entries: bool,
+    pub dup_key: bool,
 }
 
 impl Req {
@@ -134,6 +137,10 @@ impl Req {
             }
             if part == "ne" {
                 r.no_entries = true;
+                continue;
+            }
+            if part == "dk" {
+                r.dup_key = true;
                 continue;
             }
             let (k, v) = part.split_once('=').expect("key=value");
@@ -181,6 +188,9 @@ impl Req {
         }
         if self.no_entries {
             s.push_str(";ne");
+        }
+        if self.dup_key {
+            s.push_str(";dk");
         }
         s
     }
@@ -242,6 +252,7 @@ pub fn ty_text(ty: u8) -> String {
         2 => "0:3:4:4".into(),
         3 => "0:1:8:16".into(),
         4 => "1:1:8:8".into(),
+        5 => td_text(&TypeDetail::new::<iceoryx2::service::marker::Flatbuffer<u64>>(TypeVariant::FixedSize)),
         o => panic!("type code {}", o),
     }
 }
@@ -382,6 +393,7 @@ pub fn run_op<S: Service + 'static>(node: &Node<S>, name: &ServiceName, pat: Pat
             2 => ps_ty!(node, name, kind, req, u32, None::<usize>),
             3 => ps_ty!(node, name, kind, req, u64, Some(16usize)),
             4 => ps_ty!(node, name, kind, req, [u64], None::<usize>),
+            5 => ps_ty!(node, name, kind, req, iceoryx2::service::marker::Flatbuffer<u64>, None::<usize>),
             o => panic!("type code {}", o),
         },
         Pat::Rr => match req.ty {
@@ -426,6 +438,7 @@ pub fn run_op<S: Service + 'static>(node: &Node<S>, name: &ServiceName, pat: Pat
                             if let Some(x) = req.vals[0] { bd = bd.max_readers(x as usize); }
                             if let Some(x) = req.vals[1] { bd = bd.max_nodes(x as usize); }
                             if !req.no_entries { bd = bd.add::<u64>(0 as $K, 0u64); }
+                            if req.dup_key { bd = bd.add::<u64>(0 as $K, 1u64); }
                             match bd.create_with_attributes(&req.specifier()) {
                                 Ok(f) => { let d = dig(&f); Ok(Handle { digest: d, _keep: Box::new(f) }) }
                                 Err(e) => Err(format!("c:{}", strip(&format!("{:?}", e)))),
@@ -470,6 +483,13 @@ pub fn exists<S: Service>(name: &ServiceName, config: &Config, pat: Pat) -> u8 {
         Ok(false) => 0,
         Err(_) => 2,
     }
+}
+
+/// number of services Service::list reports under this configuration
+pub fn list_count<S: Service>(config: &Config) -> usize {
+    let mut n = 0;
+    let _ = S::list(config, |_| { n += 1; CallbackProgression::Continue });
+    n
 }
 
 /// defaults of the patterns' QoS fields as used by the builders, in field order (model input)
